@@ -135,9 +135,12 @@ class Path:
         self.env = dict(env)
         self.cons = list(cons or [])  # (op, Poly lhs - rhs) meaning  lhs - rhs  op  0
         self.emits = list(emits or [])  # (list value or name, value)
+        self.done = False  # the iteration ended early (``continue``)
 
     def copy(self):
-        return Path(self.env, self.cons, self.emits)
+        p = Path(self.env, self.cons, self.emits)
+        p.done = self.done
+        return p
 
 
 NEG = {"<": ">=", "<=": ">", ">": "<=", ">=": "<", "==": "!=", "!=": "=="}
@@ -202,7 +205,10 @@ class PolyExec:
         for st in stmts:
             nxt = []
             for p in paths:
-                nxt.extend(self.stmt(st, p))
+                if p.done:
+                    nxt.append(p)
+                else:
+                    nxt.extend(self.stmt(st, p))
             paths = nxt
             if len(paths) > 64:
                 raise Unknown("too many paths")
@@ -245,6 +251,9 @@ class PolyExec:
                 and st.value.func.attr == "append" and len(st.value.args) == 1 and not st.value.keywords:
             v = self.ev(st.value.args[0], p.env)
             p.emits.append((astq.canon(st.value.func.value), v, st))
+            return [p]
+        if isinstance(st, ast.Continue):
+            p.done = True
             return [p]
         if isinstance(st, (ast.Pass, ast.Expr)):
             return [p]
